@@ -66,6 +66,7 @@ class Interp(ExprMixin):
         self.kills: List[tuple] = []          # negated conjunctions added by residual return/continue
         self.loops: Tuple[tuple, ...] = ()
         self.frames: List[Frame] = []
+        self.closure_frames: Dict[str, dict] = {}   # qualified closure name -> environment of its last call
         self.emissions: List[Emission] = []
         self.events: List[Event] = []
         self.unknowns: List[str] = []
@@ -844,10 +845,12 @@ class Interp(ExprMixin):
             env, _ = self.bind_params(fn, args, kwargs, node)
             fr = Frame(c.module, qual, env, self_obj=c.self_obj, cls=c.cls, closure_envs=[c.env],
                        call_site=self.site(node))
+            self.closure_frames[qual] = fr
             return self.run_body(fr, fn.body)
         env, _ = self.bind_params(fn, args, kwargs, node)
         fr = Frame(c.module, qual, env, self_obj=c.self_obj, cls=c.cls, closure_envs=[c.env] if c.env else [],
                    call_site=self.site(node))
+        self.closure_frames[qual] = fr
         return self.run_body(fr, fn.body)
 
     def call_method(self, bm: BoundMethod, args, kwargs, node):
@@ -950,6 +953,9 @@ class Entry:
     preset: Dict[str, Any] = field(default_factory=dict)     # attribute values of self known at entry
     not_none: Tuple[str, ...] = ("self.name",)               # leaves assumed not None (no fork on them)
     nonstatic: Tuple[str, ...] = ()                          # parameters whose tests are kept as residual guards
+    post_call: Optional[Tuple[str, Tuple[str, ...]]] = None  # after an 'init' entry: call the callable stored in this
+                                                             # attribute of self with these symbolic arguments; the
+                                                             # run's return value is that call's result
 
     def label(self):
         if self.kind == "init":
@@ -1050,6 +1056,26 @@ def _run_once(project, entry: Entry, config: Config) -> Run:
             d = it.dom(lt)
             d.can_none = False
         retval = it.run_body(fr, body)
+        if entry.post_call:
+            attr, argnames = entry.post_call
+            target = it.heap.get((self_t, attr))
+            args = [("sym", a) for a in argnames]
+            for a in argnames:
+                it.static_syms.discard(a)
+            if isinstance(target, Closure):
+                it.frames.append(fr)
+                try:
+                    retval = it.call_closure(target, args, [], fn)
+                finally:
+                    it.frames.pop()
+                fr.env = dict(fr.env)
+                for q, cf in it.closure_frames.items():
+                    for k, v in cf.env.items():
+                        fr.env[f"{q.split('.')[-1]}:{k}"] = v
+            elif target is None:
+                raise P.AnalysisError(f"anchor vanished: {entry.label()} stores nothing in self.{attr}")
+            else:
+                retval = ("call", "self." + attr, (it.to_term(target),) + tuple(args), ())
     except _Raise as r:
         rejected, info = True, r.info
     except _LoopExit:
